@@ -416,6 +416,16 @@ def run(ses, rep):
                 rep.add(oid, status, v)
 
 
+def fallback(rep):
+    """kernels undecided: the carrier and origin batteries are run; only a failing concrete oracle is reported"""
+    v, rec = carriers()
+    if v:
+        rep.add("battery/carriers", rep.violation({"obligation": "battery-after-undecided-kernel", "scenario": "carriers"}, {"what": "kernel undecided; carrier battery", "observed": v, "run": rec}), v)
+    from .. import cfgorigin
+    for name, v, rec in cfgorigin.battery(common.native_build("default"))[:3]:
+        rep.add(f"battery/{name}", rep.violation({"obligation": "battery-after-undecided-kernel", "scenario": name}, {"what": "kernel undecided; origin battery", "observed": v, **rec}), v)
+
+
 def replay(path):
     v, rec = carriers()
     if not v:
